@@ -338,6 +338,7 @@ class Driver:
         for c in self.m["classes"]:
             for mm in c["members"]:
                 if mm["array"]:
+                    self.array_member(c, mm)
                     continue
                 e = next((e for e in self.E.values() if e["scoped_name"] == mm["qname"]), None)
                 if e is None or not e["has_getter"]:
@@ -375,6 +376,52 @@ class Driver:
                         continue
                     if not self.same(t, got, nat):
                         self.bad("getter-mismatch:" + tkind(t), member=mm["qname"], got=repr(got), native=repr(nat))
+
+    def array_member(self, c, mm):
+        """published array member: the setter must store the caller's elements, the getter must expose the member"""
+        if self.backend != "c":
+            return
+        e = next((e for e in self.E.values() if e["scoped_name"] == mm["qname"]), None)
+        alive = [h for h in self.pool[c["qname"]] if h not in self.dead]
+        if e is None or not alive:
+            return
+        n = mm["array"]
+        peek = getattr(self.lib, "vf_peekat_%s_%s" % (c["qname"].replace("::", "_"), mm["name"]), None)
+        if peek is None:
+            return
+        peek.argtypes = [ctypes.c_void_p, ctypes.c_int]
+        peek.restype = ctypes.c_longlong
+        h = self.rng.choice(alive)
+        if e["has_setter"]:
+            s = self.F.get(e["setter"])
+            sw = [self.W[w] for w in s[self.wkey] if w in self.W and self.W[w]["name"]] if s else []
+            if sw:
+                vals = [self.rng.randint(-1000, 1000) for _ in range(n)]
+                arr = (ctypes.c_int * n)(*vals)
+                f = getattr(self.lib, sw[0]["name"])
+                f.argtypes = [ctypes.c_void_p, ctypes.c_void_p]
+                f.restype = None
+                f(h, ctypes.cast(arr, ctypes.c_void_p))
+                self.count("accessor_calls")
+                self.features.add("member:array:setter")
+                got = [peek(h, i) for i in range(n)]
+                if got != vals:
+                    self.bad("setter-mismatch:array", member=mm["qname"], set=vals, native=got)
+        if e["has_getter"]:
+            g = self.F.get(e["getter"])
+            gw = [self.W[w] for w in g[self.wkey] if w in self.W and self.W[w]["name"]] if g else []
+            if gw:
+                f = getattr(self.lib, gw[0]["name"])
+                f.argtypes = [ctypes.c_void_p]
+                f.restype = ctypes.c_void_p
+                p = f(h)
+                self.count("accessor_calls")
+                self.features.add("member:array:getter")
+                if p:
+                    got = list((ctypes.c_int * n).from_address(p))
+                    nat = [peek(h, i) for i in range(n)]
+                    if got != nat:
+                        self.bad("getter-mismatch:array", member=mm["qname"], got=got, native=nat)
 
     @staticmethod
     def same(t, a, b):
